@@ -300,7 +300,13 @@ let handle_line line =
         let rec subs = function
           | s :: c :: r -> { lc_subs = n_of_int (int_of_string s); lc_comps = (if c = "-" then None else Some (mask c)) } :: subs r
           | _ -> [] in
-        run_op idx ws (OSetListener (Some (LDispatch (subs rest)))) ~creates:false
+        let ls = LDispatch (subs rest) in
+        let ((w', _), _) = step ws.w (OSetListener (Some ls)) in
+        ws.w <- w';
+        (* what the Dispatch presents to the world: Subscriptions() / Components() *)
+        let c = outer_cfg ls in
+        Buffer.add_string out (Printf.sprintf "R %s ok cfg=%d/%s\n" idx (int_of_n c.lc_subs)
+          (match c.lc_comps with None -> "nil" | Some m -> str_mask ws m))
       | "LOCKED", [] -> run_op idx ws OIsLocked ~creates:false
       | "STATS", [] -> run_op idx ws OStats ~creates:false
       | _ -> failwith ("bad op line: " ^ line)
